@@ -1,4 +1,12 @@
-//! C11 for the hook-less families (Bloom, Count-Min, Frequent Items, t-digest): attached
-//! when those explorers are merged in.
+//! C11 for the hook-less families (Bloom, Count-Min, Frequent Items, t-digest).
 use crate::common::Ctx;
-pub fn run(_ctx: &Ctx) {}
+use crate::obs;
+use rayon::prelude::*;
+
+pub fn run(ctx: &Ctx) {
+    let jobs: Vec<Box<dyn Fn() + Sync + Send>> = vec![
+        Box::new(|| crate::c08::explore(ctx, &obs::cm_roundtrip)),
+        Box::new(|| crate::c09::explore(ctx, &obs::bloom_roundtrip)),
+    ];
+    jobs.par_iter().for_each(|j| j());
+}
